@@ -382,6 +382,11 @@ func atomicHandler(w *workerCtx, line []byte) (any, error) {
 				}
 			}
 		}
+		if k < 0 && req.Idx >= 0 && int(req.Idx) < len(sortedNames) && sortedNames[req.Idx] == bystander {
+			// the receiver asks for the up-to-date bystander: it must have lost it (the inotify watch tells);
+			// serve it, so that the session itself goes on as the scenario describes
+			return wirekit.WholeFile(p.Seed, req.Idx, []byte("bystander, up to date"), 0), nil
+		}
 		if k < 0 {
 			return nil, fmt.Errorf("unexpected request for index %d", req.Idx)
 		}
